@@ -51,6 +51,40 @@ func ReadString(r *bytes.Buffer) (b []byte, err error) {
 	return paylaod, nil
 }
 
+// WriteBytes writes s preceded by its length. A length below 0xFFFF is written in 2 bytes, as WriteString
+// writes it; a longer s, whose length does not fit, is written as 0xFFFF followed by the length in 4 bytes.
+func WriteBytes(w *bytes.Buffer, s []byte) {
+	if len(s) < 0xFFFF {
+		WriteString(w, s)
+		return
+	}
+	WriteUint16(w, 0xFFFF)
+	WriteUint32(w, uint32(len(s)))
+	w.Write(s)
+}
+
+// ReadBytes reads what WriteBytes wrote.
+func ReadBytes(r *bytes.Buffer) (b []byte, err error) {
+	l, err := ReadUint16(r)
+	if err != nil {
+		return nil, err
+	}
+	length := int(l)
+	if l == 0xFFFF {
+		l32, err := ReadUint32(r)
+		if err != nil {
+			return nil, err
+		}
+		length = int(l32)
+	}
+	if r.Len() < length {
+		return nil, io.ErrUnexpectedEOF
+	}
+	b = make([]byte, length)
+	_, err = io.ReadFull(r, b)
+	return b, err
+}
+
 func WriteUint32(w *bytes.Buffer, i uint32) {
 	w.WriteByte(byte(i >> 24))
 	w.WriteByte(byte(i >> 16))
